@@ -247,7 +247,10 @@ class Session:
         if k == "add":
             P_ = self.mnode(op["parent"])
             data = op["data"]
-            outcome = m.add(P_, data, self._before_model(op.get("before")), op.get("data_id"), op.get("kind"), op.get("node_id"))
+            if self.typed and op.get("kind") is not None and not isinstance(op["kind"], str):
+                outcome = M.Refuse(M.INVALID, "kind must be a str")
+            else:
+                outcome = m.add(P_, data, self._before_model(op.get("before")), op.get("data_id"), op.get("kind"), op.get("node_id"))
             via = op.get("via", "add")
             tgt = self.real(op["parent"])
             if self.typed and op.get("kind") is not None:
@@ -300,6 +303,12 @@ class Session:
             outcome = m.move(n, self.mnode(op["target"]), self._before_model(op.get("before")))
             tgt = self.real(op["target"])
             call = lambda: self.bind[op["node"]].move_to(tgt, before=self._before_real(op.get("before")))
+        elif k == "move_foreign":
+            other, _om = self._foreign([["fx", None, [["fx1", None, []]]], ["fy", None, []]])
+            self._last_foreign = (other, self._foreign_snapshot(other))
+            outcome = M.Refuse(M.UNSUP, "target belongs to another tree")
+            tgt = other if op.get("to_tree") else list(other)[op.get("idx", 0) % 3]
+            call = lambda: self.bind[op["node"]].move_to(tgt)
         elif k == "remove":
             n = m.find(op["node"])
             outcome = m.remove(n, bool(op.get("keep_children")), bool(op.get("with_clones")))
@@ -496,8 +505,7 @@ class Session:
                         exp = self.bind.get(outcome.ret[1].uid)
                         if ret is not exp:
                             errs.append(f"returned {ret!r}, expected the node {exp!r}")
-                    elif kind == "none" and ret is not None:
-                        errs.append(f"returned {ret!r}, expected None")
+                    # the return value of operations whose docstring promises none is not constrained
                 if op["op"] == "update_meta" and not errs:
                     # the caller's dict must not be aliased
                     self._last_passed_dict["__later__"] = 1
@@ -540,6 +548,12 @@ class Session:
                     followed = False
         else:  # unspecified
             followed = False
+        if op["op"] == "move_foreign":
+            other, snap = self._last_foreign
+            ferrs, fnodes = wf.wf_graph(other)
+            if ferrs or self._foreign_snapshot(other) != snap:
+                findings.append(Finding("C01:wf_graph", "after move_to(<node of another tree>) the other tree is changed/broken: "
+                                        + "; ".join(ferrs[:2])))
         if not followed and not findings:
             try:
                 self.resync()
@@ -560,7 +574,8 @@ class Session:
         errs, nodes = wf.wf_graph(self.tree, self.graveyard[-400:])
         if errs:
             findings.append(Finding("C01:wf_graph", "; ".join(errs[:3])))
-            return findings
+            if not nodes or any("walk failed" in e or "reachable twice" in e or "own ancestor" in e for e in errs):
+                return findings  # no usable node list: the other monitors cannot be evaluated
         self.max_nodes = max(self.max_nodes, len(nodes))
         e3 = wf.wf_siblings(self.tree, nodes)
         if e3:
@@ -616,13 +631,13 @@ class Session:
 # ---------------------------------------------------------------------------
 PROFILES = {
     # weights per op kind
-    "c01": {"add": 10, "sibling": 3, "addnode": 5, "copy_children": 2, "move": 9, "remove": 9, "remove_children": 2, "clear": 0.4,
+    "c01": {"move_foreign": 0.6, "add": 10, "sibling": 3, "addnode": 5, "copy_children": 2, "move": 9, "remove": 9, "remove_children": 2, "clear": 0.4,
             "del": 2, "sort": 2, "set_data": 4, "rename": 1, "filter": 2, "addtree": 2, "meta": 1},
-    "c02": {"add": 10, "sibling": 2, "addnode": 6, "copy_children": 1, "move": 4, "remove": 7, "remove_children": 1, "clear": 0.3,
+    "c02": {"move_foreign": 0.6, "add": 10, "sibling": 2, "addnode": 6, "copy_children": 1, "move": 4, "remove": 7, "remove_children": 1, "clear": 0.3,
             "del": 2, "sort": 1, "set_data": 14, "rename": 2, "filter": 2, "addtree": 1, "meta": 0},
-    "c03": {"add": 8, "sibling": 4, "addnode": 8, "copy_children": 4, "move": 10, "remove": 8, "remove_children": 1, "clear": 0.2,
+    "c03": {"move_foreign": 0.6, "add": 8, "sibling": 4, "addnode": 8, "copy_children": 4, "move": 10, "remove": 8, "remove_children": 1, "clear": 0.2,
             "del": 1, "sort": 1, "set_data": 10, "rename": 3, "filter": 1, "addtree": 4, "meta": 0},
-    "c04": {"add": 10, "sibling": 4, "addnode": 4, "copy_children": 2, "move": 8, "remove": 7, "remove_children": 2, "clear": 0.3,
+    "c04": {"move_foreign": 0.6, "add": 10, "sibling": 4, "addnode": 4, "copy_children": 2, "move": 8, "remove": 7, "remove_children": 2, "clear": 0.3,
             "del": 2, "sort": 3, "set_data": 5, "rename": 2, "filter": 1, "addtree": 2, "meta": 5},
 }
 
@@ -676,6 +691,8 @@ def _gen_kind(s, rng, k, nodes, hostile, allow_unspec):
             op["data_id"] = did
         if s.typed:
             op["kind"] = rng.choice(["ka", "kb", None])
+            if hostile and rng.random() < 0.06:
+                op["kind"] = rng.choice([123, 4.5])  # not a str: documented-invalid
         via = rng.choice(["add", "add", "add_child", "append_child", "prepend_child"])
         if via in ("append_child", "prepend_child"):
             if p == ROOT:
@@ -738,6 +755,10 @@ def _gen_kind(s, rng, k, nodes, hostile, allow_unspec):
             tgt = rng.choice(desc).uid  # into own branch / onto itself
             T_ = s.mnode(tgt)
         return {"op": "move", "node": n.uid, "target": tgt, "before": _pick_before(rng, m, T_, hostile, allow_unspec, exclude=n)}
+    if k == "move_foreign":
+        if not nodes or s.typed:
+            return None
+        return {"op": "move_foreign", "node": rng.choice(nodes).uid, "to_tree": rng.random() < 0.3, "idx": rng.randrange(3)}
     if k == "remove":
         if not nodes:
             return None
@@ -787,7 +808,10 @@ def _gen_kind(s, rng, k, nodes, hostile, allow_unspec):
         elif r < 0.9:
             op["data"] = None
             op["data_id"] = rng.choice(["X", "Y", 7, 8])
-        elif r < 0.95:
+        elif r < 0.93:
+            op["data"] = s.mkdata(rng)
+            op["data_id"] = n.data_id  # new data object, id explicitly kept
+        elif r < 0.97:
             op["data"] = n.data  # same object
         else:
             op["data"] = None
@@ -866,6 +890,13 @@ def run_history(case, res, *, own_prop, extra_props=()):
             return s
         nsteps += 1
         if findings:
+            # an index-only finding (C02) leaves structure and model in step: other properties keep going,
+            # so that consequences of a stale index (e.g. an accepted duplicate sibling) are still observed
+            if own_prop != "C02" and all(f.tag == "C02:wf_index" for f in findings) and i + 1 < steps:
+                for f in findings:
+                    res.count(f"context_finding:{f.tag}")
+                findings = []
+                continue
             break
     for k, v in s.counters.items():
         res.count(k, v)
